@@ -125,6 +125,8 @@ func c08LeaverAlphabet(w *world) []cev {
 			out = append(out, cev{K: "update", Meta: "om1"})
 		}
 		out = append(out, cev{K: "dead", Node: "p1", Inc: 1, From: "t", Carrier: "pkt"}, cev{K: "dead", Node: "p2", Inc: 1, From: "p2", Carrier: "pkt"})
+		// peers that are merely suspected are still peers the departure has to reach
+		out = append(out, cev{K: "suspect", Node: "p1", Inc: 1, From: "t", Carrier: "pkt"}, cev{K: "suspect", Node: "p2", Inc: 1, From: "t", Carrier: "pkt"})
 		out = append(out, cev{K: "leave"})
 		return out
 	}
